@@ -318,7 +318,7 @@ pub fn run(ctx: &Ctx) -> Report {
          closes (persistent or not) and reconnects, u16 and u32 ids, against a set model of the in-use identifiers fed only by announced events (checked against the verif-hooks in-use set after every op); \
          plus one deterministic fill of all 65535 u16 ids. non-trivial = a refusal or a close happened while an exchange id was in flight",
     );
-    let n = ctx.tier.pick(40_000, 700_000);
+    let n = ctx.tier.pick(150_000, 2_000_000);
     let (st, v) = search(ctx, "c08.history", n, || history(profile(), true, no_hostile()), test);
     rep.absorb("histories", st, v, false);
     let mut st = Stats::default();
